@@ -432,6 +432,16 @@ pub fn run_case_c04(cfg: &FsxCfg, case: &Case, acc: &mut Acc, verbose: bool, tho
             let info = it.step(i, st);
             if verbose {
                 println!("[fault at device call {}] {}", p, it.trace.last().cloned().unwrap_or_default());
+                let mut inner = it.disk.0.borrow_mut();
+                if let Some(t) = inner.trace.as_mut() {
+                    let v: Vec<String> = t.iter().map(|(_, w, b)| format!("{}{}", if *w { "W" } else { "R" }, b)).collect();
+                    if !v.is_empty() {
+                        println!("      device: {}", v.join(" "));
+                    }
+                    t.clear();
+                } else {
+                    inner.trace = Some(Vec::new());
+                }
             }
             if info.panicked.is_some() {
                 // a panic under a device fault is C11's finding, not a write-placement one
